@@ -884,6 +884,17 @@ CTX_STMTS: Dict[str, Tuple[str, str, str, str]] = {
 }
 
 
+# device commands for the same product (C04/C05/C09 use them with DEV_HEADER)
+CTX_DEV_STMTS: Dict[str, Tuple[str, str, str, str]] = {
+    "led_level": CTX_STMTS["led_level"],
+    "led_toggle": CTX_STMTS["led_toggle"],
+    "led_fade": ("led = Led(9)\n", "led.set_brightness(100)\nled.fade_in(100, 2)\n", "mon.write(led.get_brightness())\n", ""),
+    "rgb_set": CTX_STMTS["rgb_set"],
+    "servo_write": ("sv = Servo(10)\n", "sv.write(45)\n", "mon.write(sv.read())\nsv.write(90)\n", ""),
+    "motor_speed": ("m = DCMotor(4, 7, 11)\n", "m.set_speed(0.5)\n", "mon.write(m.get_speed())\nm.invert()\nm.stop()\n", ""),
+}
+
+
 def _fill(template: str, block: str) -> str:
     out = template
     for k in range(4):
@@ -891,11 +902,12 @@ def _fill(template: str, block: str) -> str:
     return out
 
 
-def ctx_family(tier="quick", stmts=None, contexts=None) -> List[Tuple[str, str]]:
+def ctx_family(tier="quick", stmts=None, contexts=None, table=None, header=None) -> List[Tuple[str, str]]:
     """ids: ctx/<context>/<statement>."""
     out = []
+    HEADER = header or globals()["HEADER"]
     reads_setup = 'a = analog_read("A0") - 512\nb = analog_read("A1") - 512\n'
-    for sname, (pre, block, post, flags) in CTX_STMTS.items():
+    for sname, (pre, block, post, flags) in (table or CTX_STMTS).items():
         if stmts is not None and sname not in stmts:
             continue
         gl = flags[2:].split(",") if flags.startswith("g:") else []
